@@ -716,6 +716,8 @@ def render_value(D, fn):
 def render_arg(x, fn):
     if x is None:
         return "?"
+    if x[0] == "parg":
+        return "p%d" % x[1]
     if x[0] in ("p", "l", "bswap", "sub", "subp", "subv"):
         return render_slice(x, fn)
     return render_value(x, fn)
